@@ -28,7 +28,7 @@ REQUIRED = ["steps", "attach_steps", "declare_steps", "redeclare_steps", "remove
 EXHAUSTIVE = {"quick": False, "thorough": False}
 
 PFX = ("a", "b")
-URI = ("u1", "u2")
+URI = ("u1", "u1/")      # (two namespace names that differ by a trailing slash only)
 
 
 def plan(tier, seed):
@@ -283,7 +283,7 @@ def history_of(origin, state):
 def random_history(ctx, hist_no):
     rng = ctx.rng
     n = rng.randint(10, 30)
-    prefixes, uris = ("a", "b", "c", "d", "e\u0301", "\u212b", "ab", "abc", "xs", "xsi", "xml", "xmlns", "eml", ""), ("u1", "u2", "u3")   # (prefixes that contain each other too)
+    prefixes, uris = ("a", "b", "c", "d", "e\u0301", "\u212b", "ab", "abc", "xs", "xsi", "xml", "xmlns", "eml", ""), ("u1", "u2", "u3", "", "u1/", "U1")   # (prefixes that contain each other too)
     # the forest starts with two documents imported from the same text (equal declarations, maps shared inside each document as
     # the importer does) plus separate nodes: "unrelated trees are unaffected" is checked across all of them
     doc = '<r xmlns:a="u1" xmlns:b="u2"><x><y/><w/></x><z xmlns:c="u3"/></r>'
@@ -295,7 +295,9 @@ def random_history(ctx, hist_no):
             x = stack.pop()
             nodes.append(x)
             stack.extend(reversed(x.children))
-    nodes += [Node("n", id=("shared-id" if rng.random() < 0.25 else None)) for _ in range(max(0, n - len(nodes)))]
+    # (what an element is called says nothing about its namespace bindings: real names, among them the metadata island pair)
+    nodes += [Node(rng.choice(["n", "n", "additionalMetadata", "metadata", "metadata", "dataset", "para", "eml"]),
+                   id=("shared-id" if rng.random() < 0.25 else None)) for _ in range(max(0, n - len(nodes)))]
     n = len(nodes)
     label = {id(x): i for i, x in enumerate(nodes)}
     f = forest_of(real_state(nodes, label), n)
